@@ -137,6 +137,7 @@ def _ns_members():
     M.append(("CHAIN", ("attr", lambda: Option("CHAIN", Option("B"))), lambda q: Option(q, Option("B"))))
     M.append(("AUTO", ("attr", lambda: Option.auto(3, doc="auto doc")), lambda q: Option(q, 3)))
     M.append(("AUTOF", ("attr", lambda: Option.auto(3) >> f), lambda q: Option(q, 3) >> f))
+    M.append(("AUTOTMPL", ("attr", lambda: Option.auto("{B}-t", doc="templated default")), lambda q: Option(q, "{B}-t")))
     M.append(("AUTODOM", ("attr", lambda: Option.auto(1, domain=[1, 2])), lambda q: Option(q, 1, domain=[1, 2])))
     M.append(("EVAL", ("attr", lambda: Option("B", 4) >> f), lambda q: Option(q, Option("B", 4) >> f)))
     return M
